@@ -1,4 +1,7 @@
 SPECIFICATION MCSpec
 CONSTANTS
+  FixReturn = TRUE
+  FixOrigin = TRUE
+  Inherit = TRUE
   Variant = "orig"
-INVARIANT P_Model
+CONSTRAINT MRefute
